@@ -42,7 +42,7 @@ fn main() {
         i += 1;
         let mut t = Tape::new(&tape);
         let name = format!("g{}", specs.len());
-        if let Some(a) = vcore::treegen::gen_ambiguous(&mut t, &name) {
+        if let Some(a) = vcore::treegen::gen_ambiguous_kind(&mut t, &name, Some(specs.len())) {
             meta.push(serde_json::json!({ "kind": a.kind, "needs_expansion": a.needs_expansion,
                 "spec": vcore::codegen::spec_to_json(&a.ambiguous) }));
             specs.push(a.ambiguous);
